@@ -46,7 +46,7 @@ MODELLED = ('volume.py: _VolumeBase.geometry_equal, match_geometry (axis alignme
             'the pad options of match_geometry as implemented by Volume.pad (constant_value; EDGE = nearest '
             'source voxel per axis; MINIMUM/MAXIMUM/MEAN/MEDIAN of the label array); the dtype handling of '
             'VolumeToVolumeTransformer.__call__ (input_is_int = signed only, rounded output cast to the signed input '
-            'type / int64 by two\'s complement, unrounded output cast back to a non-integer input type, bounds check '
+            'type / int64 by two\'s complement, unrounded output cast back to a floating input type only, bounds check '
             'after the cast, dtype of the returned array)')
 STRATA = ['geq', 'geq_for', 'geq_tol', 'match_direct', 'match_chain', 'match_outside', 'match_geomsrc',
           'match_perturbed', 'match_refuse_meta', 'v2v', 'v2v_boundary', 'v2v_outside', 'r2i', 'r2i_boundary',
@@ -63,19 +63,12 @@ RULE = ('source geometries: rational orthonormal directions (48 signed permutati
         'int and float inputs, round_output x check_bounds; malformed point arrays; index arrays of dtype int8/16/32/64, '
         'uint8/16/32/64, float32/64 given to the transformer (related and unrelated geometries, images inside / negative '
         '/ beyond the target, target axes longer than 256 voxels, int8 images exactly at 127 / -128; narrow signed types '
-        'only with images that fit; unsigned types only with round_output=True unless C09_UNSIGNED_UNROUNDED=1 - open '
-        'defect), stratum v2v_unsigned_neg = unsigned input with >= 1 negative image. non-trivial = source with > 1 '
+        'only with images that fit), round_output x check_bounds for every dtype; stratum v2v_unsigned_neg = unsigned '
+        'input with >= 1 negative image (rounded: the int64 result must keep it; unrounded: fixed defect D112). non-trivial = source with > 1 '
         'voxel and (for point cases) >= 1 point; distinct by case hash')
 NOT_EXECUTED = ['per_channel=True statistics padding of multi-channel volumes in match_geometry',
-                'VolumeToVolumeTransformer with an UNSIGNED index array and round_output=False (reported defect of the '
-                'unchanged code: result cast to the unsigned type; modelled, refuted in C09_v2v_dtype_unsigned_unrounded_'
-                'refuted, generated only with C09_UNSIGNED_UNROUNDED=1)',
                 'signed int8/int16/int32 index arrays whose rounded image does not fit the input type (documented '
                 '"matched to the input datatype": wraps; outside the fits-hypothesis of C09_v2v_dtype_rounded_exact)']
-# the combination unsigned x unrounded violates the property on the unchanged code (see NOT_EXECUTED); switch on to
-# replay the refutation witness class against the real code
-UNSIGNED_UNROUNDED = os.environ.get('C09_UNSIGNED_UNROUNDED') == '1'
-EXHAUSTIVE = {'quick': False, 'thorough': False}
 
 FOR_UIDS = {None: None, 1: '1.2.826.0.1.3680043.8.498.1', 2: '1.2.826.0.1.3680043.8.498.2'}
 CS = ['PATIENT', 'SLIDE']
@@ -727,7 +720,7 @@ def _margin_rel(idx, shape, rel):
 
 def _v2v_dtype(rng, hi, kind):
     """transformer(index array of a given dtype): related (derived) or unrelated target, images inside / negative /
-    beyond the target; kind v2v_unsigned_neg forces an unsigned dtype, rounding and >= 1 negative image"""
+    beyond the target; kind v2v_unsigned_neg forces an unsigned dtype and >= 1 negative image"""
     neg = kind == 'v2v_unsigned_neg'
     g = rand_geom(rng, hi)
     if neg:
@@ -736,7 +729,7 @@ def _v2v_dtype(rng, hi, kind):
         dt = rng.choice(SIGNED + UNSIGNED + FLOATS + ['uint8', 'int8', 'float32'])
     isint = dt not in FLOATS
     unsigned = dt in UNSIGNED
-    rnd = True if (unsigned and not UNSIGNED_UNROUNDED) else rng.random() < 0.55
+    rnd = rng.random() < (0.65 if neg else 0.55)
     lo_in = DT_RANGE[dt][0] if isint else None
     free = rng.random() < (0.25 if neg else 0.3)
     rel = F(1, 10**4) if dt == 'float32' else F(1, 10**6)
